@@ -157,6 +157,56 @@ struct Steer {
 	}
 };
 
+// MemAiou whose index on its network (j) differs from the identity of its thread in the scheduler: the reduced signer
+// set {1..n-1} talks over networks of size n-1.  (sched::MemAiou yields as party j; identical logic otherwise.)
+class SubAiou : public sched::MemAiou {
+public:
+	int sid;
+	SubAiou(size_t n_in, size_t j_in, int sid_in, sched::Net *net_in, sched::Sched *S_in, size_t scheduler, time_t timeout)
+		: sched::MemAiou(n_in, j_in, net_in, S_in, scheduler, timeout), sid(sid_in) {}
+	template<class F> bool recv2(bool want_array, size_t &i_out, size_t scheduler, time_t timeout, F store)
+	{
+		if (scheduler == aio_scheduler_default) scheduler = aio_default_scheduler;
+		if (timeout == aio_timeout_default) timeout = aio_default_timeout;
+		int64_t entry = mcenv::vclock;
+		size_t direct = i_out;
+		bool waited = false;
+		while (true)
+		{
+			size_t from;
+			if (pick(want_array, from, scheduler, direct))
+			{
+				sched::Msg &m = net->q[from][j].front();
+				bool ok = store(m);
+				net->q[from][j].pop_front();
+				net->received++;
+				numRead++;
+				i_out = from;
+				S->note_progress();
+				return ok;
+			}
+			if (S->livelock) break;
+			if (waited && mcenv::vclock >= entry + (int64_t)timeout) break;
+			S->yield(sid, true);
+			waited = true;
+		}
+		if (scheduler != aio_scheduler_direct) i_out = n;
+		return false;
+	}
+	bool Receive(mpz_ptr m, size_t &i_out, const size_t scheduler = aio_scheduler_default, const time_t timeout = aio_timeout_default) override
+	{
+		return recv2(false, i_out, scheduler, timeout, [&](sched::Msg &x) { return mpz_set_str(m, x.v[0].c_str(), 10) == 0; });
+	}
+	bool Receive(std::vector<mpz_ptr> &m, size_t &i_out, const size_t scheduler = aio_scheduler_default, const time_t timeout = aio_timeout_default) override
+	{
+		return recv2(true, i_out, scheduler, timeout, [&](sched::Msg &x) {
+			if (x.v.size() != m.size()) return false;
+			for (size_t k = 0; k < m.size(); k++) if (mpz_set_str(m[k], x.v[k].c_str(), 10)) return false;
+			return true;
+		});
+	}
+};
+
 inline void tamper_value(std::string &v, int variant, const Grp &G)
 {
 	mpz_t x;
@@ -249,8 +299,8 @@ inline World run_world(const Cfg &C, uint64_t seed, bool want_log = false)
 		CachinKursawePetzoldShoupRBC *rbcR = nullptr;
 		if (reduced && i > 0)
 		{
-			aiouR = new sched::MemAiou(NR, i - 1, &ucastR, &S, aiounicast::aio_scheduler_roundrobin, to);
-			aiou2R = new sched::MemAiou(NR, i - 1, &bcastR, &S, aiounicast::aio_scheduler_roundrobin, to);
+			aiouR = new SubAiou(NR, i - 1, i, &ucastR, &S, aiounicast::aio_scheduler_roundrobin, to);
+			aiou2R = new SubAiou(NR, i - 1, i, &bcastR, &S, aiounicast::aio_scheduler_roundrobin, to);
 			rbcR = new CachinKursawePetzoldShoupRBC(NR, TR, i - 1, aiou2R, aiounicast::aio_scheduler_roundrobin, to);
 		}
 		std::ostream nolog(nullptr);
